@@ -40,6 +40,10 @@ type Hooks struct {
 	Ident  func(st *State, obj types.Object) (Val, bool)
 	Index  func(st *State, x, i Val) (Val, bool)
 	Assert func(st *State, v Val, typ string) (val Val, ok bool, known bool)
+	// Binary is told about every arithmetic binary expression (after operand evaluation).
+	Binary func(st *State, e *ast.BinaryExpr, l, r Val)
+	// Access is told about every index (hi == nil, slice == false) and slice expression.
+	Access func(st *State, e ast.Expr, x Val, lo, hi Val, slice bool)
 	// Store is told about every assignment to a plain variable.
 	Store func(st *State, obj types.Object, v Val)
 	// Inline resolves a statically-called module function/method to its declaration for inlining.
@@ -104,6 +108,9 @@ func (st *State) NewObj(typ string, fields map[string]Val) Ref {
 }
 
 func (st *State) Obj(r Ref) *Obj { return st.heap[r.ID] }
+
+// Set overrides the value of a variable (used by rules that want a stable name for it).
+func (st *State) Set(obj types.Object, v Val) { st.env[obj] = v }
 
 func (st *State) Emit(name string, pos token.Pos, args ...Val) {
 	st.Events = append(st.Events, Event{Name: name, Args: args, Pos: pos})
